@@ -327,3 +327,27 @@ def _option_and_or(eng, m, args, fr, dty):
     if a.variant == 'None' and b.variant == 'Some':
         return b
     return NONE()
+
+
+@model(r'^<(num_bigint::)?Sign as PartialEq>::(eq|ne)$')
+def _sign_eq(eng, m, args, fr, dty):
+    from .engine import Cell, mkbool
+    a, b = eng.deref(args[0], fr), eng.deref(args[1], fr)
+    while isinstance(a, Cell):
+        a = a.v
+    while isinstance(b, Cell):
+        b = b.v
+    same = a.variant == b.variant
+    return mkbool(same if m.group(2) == 'eq' else not same)
+
+
+@model(r'^core::num::<impl (u8|u16|u32|u64|usize)>::div_ceil$')
+def _div_ceil(eng, m, args, fr, dty):
+    import z3
+    from .engine import Int, mkint
+    a, b = args[0], args[1]
+    if a.c is not None and b.c is not None and b.c != 0:
+        return mkint(-(-a.c // b.c), m.group(1))
+    w = a.w
+    q = z3.UDiv(a.e, b.e)
+    return Int(z3.If(z3.URem(a.e, b.e) == 0, q, q + 1), w, False)
